@@ -248,3 +248,26 @@ pub fn run_history(file: Option<&[u8]>, perms: Option<u32>, texts: &[Vec<u8>], s
     }
     Ok(Ok(HistoryOut { steps: outs, rollbacks, parsed: summaries }))
 }
+
+/// Apply every file patch of `text` to a small fixed file in both directions at fuzz 0 and 2 and roll
+/// it back again; only panics are reported (a failing application is fine).
+pub fn apply_smoke(text: &[u8]) -> Result<(), String> {
+    quiet_panics();
+    let file: &[u8] = b"a\nb\nc\nd\ne\n";
+    let r = catch_unwind(AssertUnwindSafe(|| {
+        let Ok(p) = parse_patch(text, 0, false) else { return };
+        for fp in &p.file_patches {
+            for (reverse, fuzz) in [(false, 0usize), (true, 0), (false, 2)] {
+                for existing in [true, false] {
+                    let mut mf = if existing { ModifiedFile::new(file, true, None) } else { ModifiedFile::new_non_existent() };
+                    let rep = fp.apply(&mut mf, dir(reverse), fuzz, &AnalysisSet::default(), &fn_analysis_note_noop);
+                    fp.rollback(&mut mf, dir(reverse), &rep);
+                }
+            }
+        }
+    }));
+    match r {
+        Ok(()) => Ok(()),
+        Err(e) => Err(format!("applying (or rolling back) the parsed patch panicked: {}", panic_msg(e))),
+    }
+}
